@@ -55,12 +55,12 @@ ELEMENTWISE = [{'op': 'map', 'f': 'inc'}, {'op': 'map', 'f': 'dbl'}, {'op': 'fil
 STRUCTURAL = [{'op': 'coalesce', 'n': 2}, {'op': 'coalesce', 'n': 1}, {'op': 'repartition', 'n': 3}, {'op': 'sortBy'}, {'op': 'distinct'},
               {'op': 'reduceByKey'}, {'op': 'groupByKey'}, {'op': 'zipWithIndex'}, {'op': 'glom'}, {'op': 'union_self'},
               {'op': 'sampleByKey', 'seed': 5}]
-ACTIONS = ['collect', 'collect', 'count', 'take3', 'first', 'reduce', 'aggregate', 'takeSample', 'collect']
+ACTIONS = ['collect', 'collect', 'count', 'unpersist', 'take3', 'first', 'reduce', 'aggregate', 'takeSample', 'collect']
 
 BACKENDS = ['thread', 'mp+cloudpickle', 'mp+dill', 'ppe+cloudpickle', 'ppe+dill', 'reversed', 'shuffled']
 
 
-def build(sc, pipe, table):
+def build(sc, pipe, table, handles=None):
     r = sc.parallelize(list(pipe['data']), pipe['n'])
     for o in pipe['ops']:
         k = o['op']
@@ -70,6 +70,8 @@ def build(sc, pipe, table):
             r = r.sample(o['repl'], o['fraction'], o['seed'])
         elif k == 'persist':
             r = r.persist()
+            if handles is not None:
+                handles.append(r)
         elif k == 'coalesce':
             r = r.coalesce(o['n'])
         elif k == 'repartition':
@@ -95,9 +97,14 @@ def build(sc, pipe, table):
     return r
 
 
-def act(r, a, table):
+def act(r, a, table, handles=()):
     if a == 'collect':
         return r.collect()
+    if a == 'unpersist':
+        # drop every persisted step of the lineage; the entries the workers merged back must go as well
+        for h in handles:
+            h.unpersist()
+        return None
     if a == 'count':
         return r.count()
     if a == 'take3':
@@ -170,10 +177,25 @@ def shared_fingerprint(r):
             for x in lineage(r)]
 
 
+def counting(table, counts):
+    """the same user functions, counting their calls (in-process backends only: threads share `counts`)"""
+    import threading
+    lock = threading.Lock()
+
+    def wrap(name, f):
+        def g(*a):
+            with lock:
+                counts[name] = counts.get(name, 0) + 1
+            return f(*a)
+        return g
+    return {k: wrap(k, f) for k, f in table.items()}
+
+
 def run_pipeline(sc, pipe, table, fingerprints=None):
-    r = build(sc, pipe, table)
+    handles = []
+    r = build(sc, pipe, table, handles)
     before = shared_fingerprint(r) if fingerprints is not None else None
-    out = [act(r, a, table) for a in pipe['actions']]
+    out = [act(r, a, table, handles) for a in pipe['actions']]
     if fingerprints is not None:
         fingerprints.append((before, shared_fingerprint(r)))
     return out, cache_view(sc)
@@ -351,8 +373,8 @@ class C03(Prop):
             yield dict(case, pipe=dict(p, data=p['data'][:i] + p['data'][i + 1:]))
 
     # ---- execution ------------------------------------------------------------------------------
-    def reference(self, pipe):
-        return run_pipeline(self.ps.Context(), pipe, LAMBDAS)
+    def reference(self, pipe, counts=None):
+        return run_pipeline(self.ps.Context(), pipe, counting(LAMBDAS, counts) if counts is not None else LAMBDAS)
 
     def run_case(self, case, ctx):
         if case['kind'] == 'model':
@@ -367,8 +389,11 @@ class C03(Prop):
         pipe = case['pipe']
         for o in pipe['ops']:
             ctx.note('op:' + o['op'])
+        # user-function call counts can be observed on the backends that run in this process
+        inproc = case['kind'] == 'sched' or case.get('backend') in ('thread', 'reversed', 'shuffled')
+        want_counts, got_counts = ({}, {}) if inproc else (None, None)
         try:
-            want = self.reference(pipe)
+            want = self.reference(pipe, want_counts)
         except Exception as e:  # pylint: disable=broad-except
             ctx.note('reference-raises')
             want = exc(e)
@@ -389,6 +414,8 @@ class C03(Prop):
             label = bk
             pool = None
         fps = [] if case['kind'] == 'sched' else None
+        if inproc:
+            table = counting(table, got_counts)
         try:
             got = run_pipeline(sc, pipe, table, fps)
         except Exception as e:  # pylint: disable=broad-except
@@ -408,6 +435,10 @@ class C03(Prop):
         if got[1] != want[1]:
             return Mismatch('%s: cache contents after the job differ from the in-process executor' % label, got[1], want[1],
                             'C03:cache:' + (label if case['kind'] == 'backend' else 'sched'), relation='spec')
+        if inproc and got_counts != want_counts:
+            return Mismatch('%s: user functions are called a different number of times than on the in-process executor (data cached '
+                            'by the workers is not what later actions read)' % label, got_counts, want_counts,
+                            'C03:recompute:' + (label if case['kind'] == 'backend' else 'sched'), relation='spec')
         if fps and fps[0][0] != fps[0][1]:
             diff = [(a, b) for a, b in zip(*fps[0]) if a != b][:2]
             return Mismatch('%s: the tasks (re)bound attributes of the dataset objects all threads share' % label, diff, None,
